@@ -230,6 +230,8 @@ var checks = map[string]*check{
 		},
 		Parts: []part{
 			{Name: "crash-points", Kind: "explore", Scen: "crash_plugin", Depths: depths([]int{2}, []int{2, 3}), Budget: budget(8*time.Minute, 30*time.Minute)},
+			// the plugin dies without the kernel announcing it on the connections (descriptors inherited by a surviving child); net/rpc
+			{Name: "silent-death", Kind: "explore", Scen: "crash_plugin", Inst: inst("silent", "silent"), Depths: depths([]int{1}, []int{1, 2}), Budget: budget(3*time.Minute, 10*time.Minute)},
 			// a real plugin process killed from outside after 0.2 .. 26 s of uptime, seen by the launching client and by a
 			// client reattached to the same process (cmdrunner's pid polling): detection time, calls, Ping, Kill
 			{Name: "real-processes", Kind: "enum", Bin: "e3.test", Test: "TestC03Proc"},
